@@ -195,7 +195,11 @@ MAddEn(st, m) == st.M[m].pc = "add"
 MAdd(st, m) == [st EXCEPT !.ctr[1] = @ + 1,
                           !.M[m].pc = IF MCounter(st, m) = 0 THEN "idle" ELSE "rd"]
 
-\* s.precertsSeen++ etc. is a plain read followed by a plain write
+\* the second counter of an entry (precertsSeen, unparsableEntries, entriesWithNonFatalErrors):
+\* atomic.AddInt64 since commit 4fe80e7 ...
+MIncEn(st, m) == st.M[m].pc = "rd"
+MInc(st, m) == [st EXCEPT !.ctr[MCounter(st, m) + 1] = @ + 1, !.M[m].pc = "idle"]
+\* ... before that `s.precertsSeen++`: a plain read followed by a plain write
 MRdEn(st, m) == st.M[m].pc = "rd"
 MRd(st, m) == [st EXCEPT !.M[m].tmp = st.ctr[MCounter(st, m) + 1], !.M[m].pc = "wr"]
 MWrEn(st, m) == st.M[m].pc = "wr"
